@@ -593,7 +593,7 @@ PROPS = {
               # the worker sleeps now and then where it does not hold the mutex: memtable rotations
               # and deletion passes fall INTO running compactions
               dict(driver="hist", args=["--nops", "90", "--per-file", "6", "--profile", "fill",
-                                        "--compact-bias", "1", "--jitter", "350"],
+                                        "--compact-bias", "1", "--jitter", "350", "--max-iters", "3"],
                    quick=32, thorough=800),
               # what crash recovery needs must also survive an I/O error (a failed switch of
               # CURRENT must not let the deletion pass remove the manifest CURRENT still names)
